@@ -387,4 +387,5 @@ func c15(c *core.Ctx, r *core.Report) {
 		}
 	}
 	r.Floor("R15.merge", 3, "Merge, Matches, LessEqual")
+	c15matches(c, r)
 }
